@@ -18,14 +18,17 @@ import (
 
 // tracks Policer's check progress.
 type nodeCache struct {
-	nodes   map[uint64]bool
-	metrics MetricsCollector
+	nodes map[uint64]bool
+	// holders that have not been checked (nodes under maintenance)
+	unchecked map[uint64]struct{}
+	metrics   MetricsCollector
 }
 
 func newNodeCache(metrics MetricsCollector) *nodeCache {
 	return &nodeCache{
-		nodes:   make(map[uint64]bool),
-		metrics: metrics,
+		nodes:     make(map[uint64]bool),
+		unchecked: make(map[uint64]struct{}),
+		metrics:   metrics,
 	}
 }
 
@@ -42,6 +45,14 @@ func (n *nodeCache) submitReplicaCandidate(node netmap.NodeInfo) {
 // submits storage node as a current object replica holder.
 func (n *nodeCache) submitReplicaHolder(node netmap.NodeInfo) {
 	n.set(node, true)
+}
+
+// submits storage node under maintenance as an object replica holder that has
+// not been checked. Such node is neither asked again nor becomes a replica
+// candidate, but it never confirms that the object is stored somewhere.
+func (n *nodeCache) submitUncheckedHolder(node netmap.NodeInfo) {
+	n.submitReplicaHolder(node)
+	n.unchecked[node.Hash()] = struct{}{}
 }
 
 // processStatus returns current processing status of the storage node
@@ -74,10 +85,11 @@ func (n *nodeCache) SubmitSuccessfulReplication(node netmap.NodeInfo) {
 }
 
 // checks whether at least one remote container node holds particular object
-// replica (including as a result of successful replication).
+// replica (including as a result of successful replication). Nodes under
+// maintenance do not count: their replicas have not been checked.
 func (n nodeCache) atLeastOneHolder() bool {
-	for _, v := range n.nodes {
-		if v {
+	for k, v := range n.nodes {
+		if _, unchecked := n.unchecked[k]; v && !unchecked {
 			return true
 		}
 	}
@@ -262,7 +274,7 @@ func (p *Policer) processNodes(ctx context.Context, plc *processPlacementContext
 		// prevent spam with new replicas.
 		// However, additional copies should not be removed in this case,
 		// because we can remove the only copy this way.
-		plc.checkedNodes.submitReplicaHolder(node)
+		plc.checkedNodes.submitUncheckedHolder(node)
 		shortage--
 		uncheckedCopies++
 
@@ -353,7 +365,10 @@ func (p *Policer) processNodes(ctx context.Context, plc *processPlacementContext
 		)
 
 		p.tryToReplicate(ctx, plc.object.Address, shortage, candidates, plc.checkedNodes)
-	} else if len(candidates) > 0 {
+		return
+	}
+
+	if len(candidates) > 0 {
 		// The required number of replicas exists, but some primary placement
 		// nodes are missing the object. Replicate to them so that the placement
 		// matches the policy.
@@ -366,9 +381,12 @@ func (p *Policer) processNodes(ctx context.Context, plc *processPlacementContext
 		)
 
 		p.tryToReplicate(ctx, plc.object.Address, uint32(len(candidates)), candidates, plc.checkedNodes)
-	} else if uncheckedCopies > 0 {
+	}
+
+	if uncheckedCopies > 0 {
 		// If we have more copies than needed, but some of them are from the maintenance nodes,
-		// save the local copy.
+		// save the local copy: these copies have not been checked and replication to
+		// the primary nodes may fail.
 		plc.needLocalCopy = true
 		p.log.Debug("some of the copies are stored on nodes under maintenance, save local copy",
 			zap.Int("count", uncheckedCopies))
